@@ -56,8 +56,9 @@ pub fn run(case: &str) -> String {
         let mut out: Vec<u8> = Vec::new();
         let mut status = "MORE";
         let mut buf = vec![0u8; 1 << 18];
-        for &k in &sizes {
-            if mode == "R" {
+        for (idx, &k) in sizes.iter().enumerate() {
+            // mode M: both faces on one reader, read and fill_buf/consume taking turns
+            if mode == "R" || (mode == "M" && idx % 2 == 0) {
                 match rd.read(&mut buf[..k]) {
                     Ok(0) => { status = "EOF"; break; }
                     Ok(n) => out.extend_from_slice(&buf[..n]),
@@ -157,7 +158,7 @@ pub fn gen(ctx: &Ctx) {
                 non-trivial = a non-empty payload was delivered".into();
     let mut emit = |out: &mut Out, kind: &str, data: &[u8], rng: &mut Rng, need: usize, class: &str| {
         let (lo, segs) = split_segs(rng, data);
-        let mode = if rng.chance(1, 2) { "R" } else { "B" };
+        let mode = match rng.below(5) { 0 | 1 => "R", 2 | 3 => "B", _ => "M" };
         let case = format!("{} {} {} {}{}", kind, hex(&lo), if segs.is_empty() { "-".to_string() } else { segs.iter().map(|s| hex(s)).collect::<Vec<_>>().join(",") }, mode, sizes(rng, need));
         let r = run(&case);
         let nt = !r.starts_with("- ");
